@@ -188,6 +188,10 @@ class Run:
         label = label or driver
         tr = os.path.join(self.dir, f"{label}.{profile}.trace.ndjson")
         out, dt = self.harness(binp, ["record", driver, self.seed, n, tr] + list(extra))
+        if os.path.exists(tr + ".timeout"):      # the watchdog ended the recording: the call that did not return is the last event
+            with open(tr, "a") as f:
+                f.write(open(tr + ".timeout").read())
+            log(f"[record] {label} ({profile}): a call did not return within the watchdog limit; recorded as outcome 'timeout'")
         cnt = sum(1 for _ in open(tr))
         log(f"[record] {label} ({profile}): {cnt} events, {dt:.1f}s")
         return tr
